@@ -89,9 +89,6 @@ def classify_diff(f, a, b):
 
 def classify_encode_error(dbx, d, payload, e):
     """Mechanism: the only absent value the encoders cannot take back is an absent DATE (assert isinstance(value, date))."""
-    for f in d.fields:
-        if f.ftype == "DATE" and ((payload >> f.off) & f.mask) == f.na_raw():
-            return "absent-date-not-reencodable", f.id
     if "out of range after scaling" in str(e):
         # a field wider than the 53-bit float mantissa whose raw value lies within float rounding of the top of
         # its representable range: value/resolution rounds up past the largest legal code
@@ -101,6 +98,9 @@ def classify_encode_error(dbx, d, payload, e):
                 top = (1 << (f.bits - 1)) - 2 if f.signed else (1 << f.bits) - 2
                 if 0 <= top - s_raw <= (1 << (f.bits - 52)):
                     return "wide-field-top-codes-double-rounding", f.id
+    for f in d.fields:
+        if f.ftype == "DATE" and ((payload >> f.off) & f.mask) == f.na_raw() and not str(e):
+            return "absent-date-not-reencodable", f.id
     return f"reencode-raised:{type(e).__name__}", None
 
 
